@@ -468,11 +468,62 @@ def _update_bodies(facts, u):
 def _gradient_derived_vars(facts, bodies):
     """variables whose value was read from a gradient slot (lets, pattern bindings of matches / if-lets on such reads), transitively"""
     g = set()
+    g_returning = set()         # crate-local functions (among `bodies`) whose result derives from a gradient read
+    by_def = {nb["def"]: nb for nb in bodies}
     changed = True
-    while changed:
+    rounds = 0
+    while changed and rounds < 12:
         changed = False
+        rounds += 1
         for nb in bodies:
+            # what a helper returns
+            if nb["kind"] in ("Fn", "AssocFn") and nb["def"] not in g_returning:
+                from .pass_rules import _return_paths
+                for _, re_ in _return_paths(facts.root(nb)):
+                    if _mentions_gradient(facts, re_) or any(x.get("k") in ("VarRef", "UpvarRef") and x["v"] in g for x in walk(re_)):
+                        g_returning.add(nb["def"])
+                        changed = True
+                        break
             for n in walk(facts.root(nb)):
+                # arguments handed to a helper; values pushed into a local collection; loop patterns over such a collection
+                if n.get("k") == "Call":
+                    r_ = resolved(n)
+                    if r_ in by_def and by_def[r_]["kind"] in ("Fn", "AssocFn"):
+                        cps = [p_ for p_ in facts.params(by_def[r_]) if p_.get("pat")]
+                        for p_, a in zip(cps, n["args"]):
+                            if _mentions_gradient(facts, a) or any(x.get("k") in ("VarRef", "UpvarRef") and x["v"] in g for x in walk(a)) \
+                                    or any(x.get("k") == "Call" and resolved(x) in g_returning for x in walk(a)):
+                                for v, _, _, _ in F.pat_bindings(p_["pat"]):
+                                    if v not in g:
+                                        g.add(v)
+                                        changed = True
+                    if callee(n) in ("alloc::vec::Vec::<T, A>::push", "alloc::vec::Vec::<T, A>::insert", "alloc::vec::Vec::<T, A>::extend") and len(n["args"]) >= 2:
+                        val = n["args"][-1]
+                        if _mentions_gradient(facts, val) or any(x.get("k") in ("VarRef", "UpvarRef") and x["v"] in g for x in walk(val)):
+                            rv = var_of(peel(n["args"][0]))
+                            if rv and rv not in g:
+                                g.add(rv)
+                                changed = True
+                fl_ = F.for_loop_parts(n)
+                if fl_:
+                    it_, pat_, _, _ = fl_
+                    if any(x.get("k") in ("VarRef", "UpvarRef") and x["v"] in g for x in walk(it_)):
+                        # only the components that come from the gradient-derived side of a zip are gradient-derived; a pattern over a
+                        # single gradient-derived collection binds gradient-derived elements
+                        z = peel(it_)
+                        sides = None
+                        while isinstance(z, dict) and z.get("k") == "Call" and callee(z) in ("core::iter::traits::collect::IntoIterator::into_iter",) and z["args"]:
+                            z = peel(z["args"][0])
+                        if isinstance(z, dict) and z.get("k") == "Call" and callee(z) == "core::iter::traits::iterator::Iterator::zip" and len(z["args"]) == 2:
+                            sides = [any(x.get("k") in ("VarRef", "UpvarRef") and x["v"] in g for x in walk(a)) for a in z["args"]]
+                        for v, _, _, path in F.pat_bindings(pat_):
+                            idx = [q for q in path if q != "*"]
+                            take = True
+                            if sides is not None and idx and idx[0] in ("0", "1"):
+                                take = sides[int(idx[0])]
+                            if take and v not in g:
+                                g.add(v)
+                                changed = True
                 srcs = []
                 if n.get("k") == "Block":
                     for s_ in n["stmts"]:
@@ -484,7 +535,8 @@ def _gradient_derived_vars(facts, bodies):
                 elif n.get("k") == "Let":
                     srcs.append((n["pat"], n["e"]))
                 for pat, init in srcs:
-                    dep = _mentions_gradient(facts, init) or any(x.get("k") in ("VarRef", "UpvarRef") and x["v"] in g for x in walk(init))
+                    dep = _mentions_gradient(facts, init) or any(x.get("k") in ("VarRef", "UpvarRef") and x["v"] in g for x in walk(init)) \
+                        or any(x.get("k") == "Call" and resolved(x) in g_returning for x in walk(init))
                     if dep:
                         for v, _, _, _ in F.pat_bindings(pat):
                             if v not in g:
